@@ -2,7 +2,7 @@
 
 use super::common::*;
 use crate::engine::*;
-use crate::instr::{calls_to_string, Call, Hi, Lo, Rec, Win};
+use crate::instr::{calls_to_string, Call, Hi, Lo, Nr, Rec, Reentrant, SharedStart, Win};
 use crate::oracles::*;
 use crate::spaces::*;
 use serde_json::{json, Value};
@@ -165,6 +165,53 @@ pub fn check_pair(alg: Algorithm, old: &[u8], new: &[u8]) -> Result<PairOutcome,
         })?;
         runs += 3;
         transitions += 3 * got.len() as u64;
+        // unsized items that all start at one address (equal exactly when equally long)
+        let shared = [7u8; 16];
+        let so = SharedStart::new(&shared, old);
+        let sn = SharedStart::new(&shared, new);
+        let got = raw_stream(alg, 0, &so, 0..n, &sn, 0..m).map_err(|e| format!("items are unsized views buf[..len] of one buffer: {}", e))?;
+        validate_stream(&got, old, 0..n, new, 0..m, true)
+            .map_err(|e| format!("items are unsized views buf[..len] of one buffer (equal iff equally long): {} [stream: {}]", e, calls_to_string(&got)))?;
+        runs += 1;
+        // a hook that re-enters the library from inside every callback
+        let mut re = Reentrant::new(Rec::new());
+        let r = subject(|| raw_into(alg, 0, &mut re, old, 0..n, new, 0..m, None));
+        match r {
+            Err(p) => return Err(format!("hook that runs nested diffs from inside its callbacks: panic: {}", p)),
+            Ok(Err(k)) => return Err(format!("hook that runs nested diffs from inside its callbacks: diff returned Err({})", k)),
+            Ok(Ok(())) => {}
+        }
+        validate_stream(&re.inner.calls, old, 0..n, new, 0..m, true).map_err(|e| {
+            format!("hook that runs nested diffs from inside its callbacks: {} [stream: {}]", e, calls_to_string(&re.inner.calls))
+        })?;
+        runs += 1 + re.nested_runs;
+        // element type with a non-reflexive PartialEq (NaN-like value 1), one object on both
+        // sides, same range and two ranges: Myers and LCS need PartialEq only
+        if alg != Algorithm::Patience {
+            let both_nr: Vec<Nr> = both.iter().map(|&x| Nr(x)).collect();
+            for (or, nr) in [(0..n, 0..n), (0..n, n..n + m), (0..n + m, 0..n + m)] {
+                let mut rec = Rec::new();
+                let r = subject(|| {
+                    if alg == Algorithm::Myers {
+                        similar::algorithms::myers::diff(&mut rec, &both_nr[..], or.clone(), &both_nr[..], nr.clone())
+                    } else {
+                        similar::algorithms::lcs::diff(&mut rec, &both_nr[..], or.clone(), &both_nr[..], nr.clone())
+                    }
+                });
+                match r {
+                    Err(p) => return Err(format!("non-reflexive items, one object {:?} on both sides, ranges {:?} / {:?}: panic: {}", both, or, nr, p)),
+                    Ok(Err(k)) => return Err(format!("non-reflexive items: diff returned Err({})", k)),
+                    Ok(Ok(())) => {}
+                }
+                validate_stream(&rec.calls, &both_nr, or.clone(), &both_nr, nr.clone(), true).map_err(|e| {
+                    format!(
+                        "items with a non-reflexive PartialEq (value 1 equals nothing), one object {:?} on both sides, ranges {:?} / {:?}: {} [stream: {}]",
+                        both, or, nr, e, calls_to_string(&rec.calls)
+                    )
+                })?;
+                runs += 1;
+            }
+        }
     }
     Ok(PairOutcome {
         nontrivial: n > 0 && m > 0 && old != new && st.equal_calls > 0 && st.change_calls > 0,
@@ -196,7 +243,7 @@ pub fn run(cfg: &RunCfg) -> CheckReport {
         "every (algorithm, old, new) with the pair drawn from the listed scopes (P(k,n) = all ordered pairs of sequences over k symbols of length <= n; R(L) = every equality pattern of total length <= L cut at every position; later scopes skip pairs of earlier ones, so cases are distinct by construction); each case runs 6 full-range entry points plus 8 sub-range embeddings (4 offset pairs x {window Index that panics outside the range, adversarially padded slices}). Non-trivial: both sides non-empty, sequences differ, and the stream contains at least one equal and one change call.",
     );
     rep.assume("oracle: cursor automaton + differential comparison with the run on the extracted slices; element type u8");
-    rep.assume("each case additionally runs three generic instantiations: old in a VecDeque whose storage wraps around against new in a Vec; old items of type Lo(u32) against new items of type Hi(u64) (equal across the types, different hashes); one sequence object on both sides with two ranges into it");
+    rep.assume("each case additionally runs three generic instantiations: old in a VecDeque whose storage wraps around against new in a Vec; old items of type Lo(u32) against new items of type Hi(u64) (equal across the types, different hashes); one sequence object on both sides with two ranges into it; unsized items that all start at one address; a hook that re-enters the library (nested diffs with all three algorithms) from inside every callback; for Myers and LCS items with a non-reflexive PartialEq on one object with equal and different ranges");
     let space = PairSpace::new(scopes(cfg.tier));
     let ex = explore(cfg, space.nshards(), |shard, acc| {
         space.for_each(shard, |old, new| {
